@@ -333,7 +333,13 @@ ycw_get_yday(unsigned int y, int c, echs_wday_t w)
 	 * the second W is the 8th yday, etc.
 	 * so the first W is on 1 + diff */
 	if (c > 0) {
-		return 7 * (c - 1) + diff + 1;
+		unsigned int res = 7U * (c - 1) + diff + 1U;
+
+		if (UNLIKELY(res > 365U + !(y % 4U))) {
+			/* there's no C-th W in Y */
+			return 0U;
+		}
+		return res;
 	} else if (c < 0) {
 		/* similarly for negative c,
 		 * there's always the 53rd J01 in Y,
@@ -350,6 +356,10 @@ ycw_get_yday(unsigned int y, int c, echs_wday_t w)
 				return res;
 			}
 			break;
+		}
+		if (UNLIKELY(res <= 7U)) {
+			/* there's no C-th last W in Y */
+			return 0U;
 		}
 		return res - 7;
 	}
